@@ -29,7 +29,7 @@ fn table_of(rows: &[Vec<u8>]) -> Table {
     for (i, r) in rows.iter().enumerate() {
         m.insert(String::from_utf8(nth_string(b"ACGT", 4, (i as u64 * 53 + 5) % 256)).unwrap(), r.clone());
     }
-    Table { k: 5, rc: true, names: (0..n).map(|i| format!("s{i}")).collect(), rows: m }
+    Table { k: 5, rc: true, names: crate::samples::odd_names(n), rows: m }
 }
 
 pub fn real_distance(t: &Table, min_freq: f64, allow_ambig: bool) -> Result<Vec<String>, String> {
@@ -280,7 +280,7 @@ pub fn run(ctx: &Ctx, rep: &mut Report) {
                 for i in 0..nrows {
                     rows.insert(String::from_utf8(nth_string(b"ACGT", 8, (i as u64 * 911) % 65_536)).unwrap(), patterns[(i + shift * 3) % 6].to_vec());
                 }
-                let t = Table { k: 9, rc: true, names: vec!["s0".into(), "s1".into(), "s2".into()], rows };
+                let t = Table { k: 9, rc: true, names: crate::samples::odd_names(3), rows };
                 for (thr, aa) in [(0usize, false), (2, true)] {
                     rep.evaluations += 1;
                     rep.nontrivial += 1;
@@ -310,7 +310,7 @@ pub fn run(ctx: &Ctx, rep: &mut Report) {
             for i in 0..size {
                 rows.insert(String::from_utf8(nth_string(b"ACGT", 12, (i as u64 * 7919) % (1 << 24))).unwrap(), patterns[(i * 7 + i / 10) % 10].to_vec());
             }
-            let t = Table { k: 13, rc: true, names: vec!["s0".into(), "s1".into(), "s2".into()], rows };
+            let t = Table { k: 13, rc: true, names: crate::samples::odd_names(3), rows };
             for thr in [0usize, 2] {
                 for aa in [false, true] {
                     rep.evaluations += 1;
